@@ -23,6 +23,11 @@ CHECKS = [
   'level': 'For every accept/reject sequence of the corrector within the bounds and all symbolic steps, targets and limits: member limit, counters = events, retry budget, predictions (natural and secant), '
            'step halving/clamping with sign, target-interval stop, member/aux/period alignment in the interface.',
   'note': 'max_members <= 3 (4 thorough), max_retries <= 1 (2 thorough), representation dim 2, parameter dim 1 (2 thorough); corrector/predictor outputs are fresh symbols; non-zero step components within [step_min, step_max] assumed'},
+ {'id': 'C15',
+  'technique': 'path-exhaustive symbolic execution of detect_on_trajectory and the cubic refinement on symbolic samples; per-path contracts and the Hermite derivative identity discharged by z3',
+  'level': 'For all sample values/times within the bounds: detected on-surface and crossing sets equal the specification, alpha in [0,1], each hit on the plane and inside its bracket with time and state '
+           'interpolated by the same parameter, hits time-ordered, nothing lost in dedup when candidates are separated; _hermite_der is the derivative of _hermite_scalar for all arguments; cubic refinement stays in its bracket.',
+  'note': 'N = 3 samples (4 thorough), two concrete normals with symbolic/concrete offset, state dim 6; segment_refine > 0 driver not encoded; convergence order under refinement is analysis outside the claim'},
 ]
 _BUILT = {c['id'] for c in CHECKS}
 NOT_APPLICABLE = [
